@@ -192,4 +192,3 @@ func makeEntry(term, offset int64, w *proto.WriteRequest) *proto.LogEntry {
 	must(err)
 	return &proto.LogEntry{Term: term, Offset: offset, Value: b, Timestamp: uint64(time.Now().UnixMilli())}
 }
-
